@@ -128,6 +128,15 @@ static int p_popiter(void)      /* D20: pop of the record an iterator stands on,
     x = hostlist_next(it);
     return x && !strcmp(x, "z");
 }
+static int p_cmptrunc(void)     /* D26: uniq keeps records whose low bounds are 2^31 or more apart */
+{
+    hostlist_t h = hostlist_create("x[0-5],x[2147483653]");
+    int n;
+    if (!h) return 2;
+    hostlist_uniq(h);
+    n = hostlist_count(h);
+    return n == 7 ? 1 : n == 1 ? 0 : 2;
+}
 /* run a probe in a child: a crash / hang of the child means "recorded defect" (0) */
 static int probe(int (*f)(void))
 {
@@ -177,5 +186,6 @@ int main(void)
     bad |= lean_bool("FIX_D24_NTH", probe(p_nth));
     bad |= lean_bool("FIX_D19_REMOVEDEPTH", probe(p_removedepth));
     bad |= lean_bool("FIX_D20_POPITER", probe(p_popiter));
+    bad |= lean_bool("FIX_D26_CMPTRUNC", probe(p_cmptrunc));
     return bad;
 }
